@@ -28,10 +28,10 @@ RULE = ("cases = enumerated (not sampled) cross product of: option --method (abs
         "-N x user/group (absent, known, unknown, resolving to numeric id 0 or 1, for every method) x bind-oracle patterns (all free, first ports busy per protocol/family, "
         "explicit port busy, TCP-only / UDP-only / both busy per family at the first candidate and at the explicit --listen ports for every method, EACCES, EADDRNOTAVAIL on IPv6, everything busy, all but the last port busy, all UDP busy); "
         "quick tier = corpus of boundary configurations (incl. those of findings F11-F14, F21, F22) "
-        "+ a seeded slice of the product, thorough = the whole product; a case is non-trivial when it left the default path "
+        "+ a seeded slice of the product, thorough = the whole product; every case runs at a verbosity level (-v count 0..3 on the real command line) taken from the rotation [0,0,3,0,2,0,3,1] shifted by the seed, stored in the replay; corpus cases and a sixteenth of the others at a level > 0 are also re-run without -v and must give the same outcome; a case is non-trivial when it left the default path "
         "(any option beyond one IPv4 subnet, or a busy port); distinct = distinct canonical configuration line")
 MANIFEST = dict(
-    level_text=("Machine-checked Lean 4 theorems (core only, 25 theorems, 9 examples) over a branch-by-branch model of "
+    level_text=("Machine-checked Lean 4 theorems (core only, 26 theorems, 9 examples) over a branch-by-branch model of "
                 "cmdline.main's --method/--listen/--disable-ipv6 handling and client.main up to fw.setup, for every command "
                 "line, feature table, passwd/group database, resolver list and bind oracle: no internal error (C15_total); "
                 "every plan satisfies predicates (a)-(e) (C15_a..e, C15_consistent) and has non-empty per-family lists "
@@ -48,13 +48,13 @@ MANIFEST = dict(
                 "table; conversely 'Feature K not supported' is said only when K is checked, missing and asked for "
                 "(C15_feature_fatal); C15_group_honoured / C15_user_honoured. FAMILY PRUNING exactly (C15_pruning_exact, "
                 "C15_c): subnets, excludes and name servers handed over are the user's when IPv6 is active and exactly their "
-                "IPv4 part when not, plus only host-wide excludes of addresses actually listened on; name-server texts are "
+                "IPv4 part when not, plus automatic entries that are exactly the host-wide excludes of the listen addresses the user did not list as a subnet - one for each such address, none for a listed one (C15_auto_exclude_exact); name-server texts are "
                 "IPv6 iff they contain a colon (C15_ns_family). Documented method names are accepted (C15_methods). "
                 "Structural facts of the source (where used_ports is initialised, the assert_features key list, the --method "
                 "choices, the DNS search guard, the order of the bound check, family_ip_tuple's test) are regenerated from the "
                 "tree on every run and enter as decide-checked side conditions (C15_side_conditions, C15_method_tables). The "
                 "model is tied to the code by an enumerated differential run of the real cmdline.main/client.main "
-                "(~5,800 configurations quick, ~210,000 thorough) and an independent oracle on the recorded plan."),
+                "(~6,000 configurations quick, ~216,000 thorough; every case at a -v level 0..3 from a seed-shifted rotation, the model having no notion of verbosity) and an independent oracle on the recorded plan."),
     level_note=("Trusted: Lean kernel; axioms propext/Classical.choice/Quot.sound only; the harness fakes (helper process, "
                 "socket layer with a scripted bind oracle, passwd/group, resolv.conf files); argparse and getaddrinfo on "
                 "numeric addresses. Decided by correspondence/oracle only, not by theorem: that MultiListener.bind and the "
@@ -84,14 +84,15 @@ LOOP4, LOOP6, ANY4, ANY6 = '127.0.0.1', '::1', '0.0.0.0', '::'
 # ------------------------------------------------------------------ case representation
 
 def mkcase(meth=None, helper=None, dis6=0, listen=None, dns=0, nsh=(), tons=None, inc=(), exc=(), an=0,
-           user=None, group=None, remote=1, resolv=(), users=None, groups=None, bind=()):
+           user=None, group=None, remote=1, resolv=(), users=None, groups=None, bind=(), verbose=None):
     if helper is None:
         helper = meth if meth not in (None, 'auto') else 'nat'
     return dict(meth=meth, helper=helper, dis6=int(dis6), listen=None if listen is None else [tuple(x) for x in listen],
                 dns=int(dns), nsh=[tuple(x) for x in nsh], tons=None if tons is None else tuple(tons),
                 inc=[tuple(x) for x in inc], exc=[tuple(x) for x in exc], an=int(an), user=user, group=group,
                 remote=int(remote), resolv=[tuple(x) for x in resolv],
-                users=dict(users or {}), groups=dict(groups or {}), bind=[tuple(x) for x in bind])
+                users=dict(users or {}), groups=dict(groups or {}), bind=[tuple(x) for x in bind],
+                verbose=verbose)   # -v count; None = assigned from the rotation in run()
 
 
 def ipnum(ip):
@@ -151,7 +152,8 @@ def case_line(c):
              'resolv=%s' % tok_list(c['resolv'], tok_ns),
              'users=%s' % tok_list(sorted(c['users'].items()), lambda x: '%d:%d' % (int(x[0]), x[1])),
              'groups=%s' % tok_list(sorted(c['groups'].items()), lambda x: '%d:%d' % (int(x[0]), x[1])),
-             'bind=%s' % tok_list(c['bind'], lambda x: '%s:%d:%d:%d:%s' % (x[0], _fam(x[1]), x[2], x[3], x[4]))]
+             'bind=%s' % tok_list(c['bind'], lambda x: '%s:%d:%d:%d:%s' % (x[0], _fam(x[1]), x[2], x[3], x[4])),
+             'v=%d' % (c.get('verbose') or 0)]
     return ' '.join(parts)
 
 
@@ -174,6 +176,8 @@ def fmt_subnet(s):
 
 def argv_of(c):
     a = []
+    if c.get('verbose'):
+        a += ['-' + 'v' * c['verbose']]
     if c['meth']:
         a += ['--method', c['meth']]
     if c['dis6']:
@@ -549,6 +553,23 @@ def plan_checks(case, res, feats):
         if not excluded and not listed:
             bad.append((fam, a[0]))
     out['b'] = (not bad, 'listen address neither excluded nor listed by the user: %r' % (bad,))
+    # ... and exactly so: client.main adds one host-wide exclude per listen address the user did not
+    # list, none for one the user listed (the user's own -x entries are not counted)
+    bad = []
+    for (i, fam, width, af) in ((0, 6, 128, AF6), (1, 4, 32, AF4)):
+        a = L['tcp'][i]
+        if a is None:
+            continue
+
+        def host(e, fam_of):
+            return fam_of(e[0]) == fam and canon_ip(e[1]) == canon_ip(a[0]) and tuple(e[2:]) == (width, 0, 0)
+        n_plan = sum(1 for e in s['exc'] if host(e, lambda f: 6 if f == AF6 else 4))
+        n_user = sum(1 for e in case['exc'] if host(e, _fam))
+        listed = any(_fam(u[0]) == fam and canon_ip(u[1]) == canon_ip(a[0]) for u in case['inc'])
+        if n_plan - n_user != (0 if listed else 1):
+            bad.append('family %d listen address %s: listed by the user=%s, automatic excludes=%d'
+                       % (fam, a[0], listed, n_plan - n_user))
+    out['b-exact'] = (not bad, '; '.join(bad))
     # (c)
     active6 = L['tcp'][0] is not None
     # an entry is IPv6 by the independent rule "its address text contains a colon" (or by its tag)
@@ -600,6 +621,7 @@ def plan_checks(case, res, feats):
 KEYS = {
     'a': 'C15:a:default-listen-not-loopback',
     'b': 'C15:b:listen-address-not-excluded',
+    'b-exact': 'C15:b:automatic-exclude-not-exactly-for-unlisted-listen-address',
     'c': 'C15:c:ipv6-entries-mismatch',
     'c-disable': 'C15:c:disable-ipv6-overridden-by-listen',
     'd': 'C15:d:listeners-do-not-match-plan',
@@ -975,6 +997,13 @@ def corpus():
         out.append(build(tpx, 0, 'both:v4port', 'dns46', 'both', bf))
         out.append(build(tpx, 0, 'both:ports', 'off', 'both', bf))
         out.append(build(nat, 0, 'v4:port', 'dns4', 'v4', bf))
+    # subnets equal to a listen address (default loopback, --listen address), at every -v level
+    for lv in (0, 1, 2, 3):
+        for (lf, sf) in (('none', 'selfboth'), ('none', 'self4port'), ('lan4', 'self4'), ('both', 'self6'),
+                         ('v6', 'self6range'), ('both:ports', 'selfboth')):
+            cc, lab = build(nat if lv % 2 else tpx, 0, lf, 'off', sf, 'free')
+            cc['verbose'] = lv
+            out.append((cc, lab))
     c, _ = build(nat, 0, 'none', 'off', 'v4', 'free')
     c['remote'] = 0
     out.append((c, 'no-remote'))
@@ -999,10 +1028,13 @@ def gen_cases(ctx):
     return cases
 
 
+VERBOSITY_ROTATION = [0, 0, 3, 0, 2, 0, 3, 1]
+
+
 def complexity(c):
     return (len(c['bind']) + len(c['inc']) + len(c['exc']) + len(c['nsh']) + len(c['resolv']) + c['dns'] + c['dis6'] +
             c['an'] + (c['tons'] is not None) + (c['user'] is not None) + (c['group'] is not None) +
-            2 * len(c['listen'] or []) + (c['meth'] is not None))
+            2 * len(c['listen'] or []) + (c['meth'] is not None) + (c.get('verbose') or 0))
 
 
 def ensure_generated(ctx):
@@ -1038,13 +1070,26 @@ def run(ctx):
     lines, impl, spec = [], [], []
     best = {}                      # violation key -> (complexity, case, expected, observed)
     seen = set()
-    for (case, label) in cases:
+    n_corpus = len(corpus())
+    for idx, (case, label) in enumerate(cases):
+        if case.get('verbose') is None:
+            # verbosity is a dimension of every scenario: -v count from a rotation shifted by the seed
+            case['verbose'] = VERBOSITY_ROTATION[(idx + ctx.seed) % len(VERBOSITY_ROTATION)]
         line = case_line(case)
         if line in seen:
             continue
         seen.add(line)
         res = run_real(case)
         out = canon_out(res)
+        ctx.hist('verbosity:-v*%d' % case['verbose'])
+        if case['verbose'] and (idx < n_corpus or idx % 16 == 0):
+            # the plan must not depend on the level: same configuration without -v
+            quiet = canon_out(run_real(dict(case, verbose=0)))
+            if quiet != out:
+                cx = complexity(case)
+                key = 'C15:outcome-depends-on-verbosity'
+                if key not in best or cx < best[key][0]:
+                    best[key] = (cx, case, 'the same outcome as without -v: ' + quiet[:300], out[:300])
         ctx.count()
         ctx.hist('outcome:' + out.split(' ')[0] + (':' + out.split(' ')[1] if not out.startswith('plan') else ''))
         ctx.hist('method:' + case['helper'])
@@ -1099,10 +1144,13 @@ def replay(ctx, rep):
     helpers.verbose = 0
     case = rep['case']['config']
     case = mkcase(**{k: case[k] for k in ('meth', 'helper', 'dis6', 'listen', 'dns', 'nsh', 'tons', 'inc', 'exc', 'an',
-                                          'user', 'group', 'remote', 'resolv', 'users', 'groups', 'bind')})
+                                          'user', 'group', 'remote', 'resolv', 'users', 'groups', 'bind')},
+                  verbose=case.get('verbose') or 0)
     res = run_real(case)
     vs = judge(case, res, documented_methods())
     keys = [k for k, _e, _o in vs]
+    if case['verbose'] and canon_out(run_real(dict(case, verbose=0))) != canon_out(res):
+        keys.append('C15:outcome-depends-on-verbosity')
     still = rep.get('key') in keys if rep.get('key') else bool(keys)
     return still, 'sshuttle %s -> %s%s' % (' '.join(argv_of(case)), canon_out(res)[:200],
                                             ('; violated: ' + ', '.join(keys)) if keys else '')
